@@ -339,6 +339,288 @@ package ir
 //@   loop 11: invariant 0 <= range_i && fw != nil && fw.w == w && fw.size == written(w) - old(written(w)) && fw.err == firsterr(w) && wafter(w) == old(wafter(w))
 //@   loop 12: invariant 0 <= range_i && fw != nil && fw.w == w && fw.size == written(w) - old(written(w)) && fw.err == firsterr(w) && wafter(w) == old(wafter(w))
 
+//@ # ---------------------------------------------------------------- C06 (extractvalue) ---
+//@ # LLVM's rule: extractvalue steps through struct fields and array elements, one index per level.
+//@ macro astep(t types.Type, i uint64) types.Type = ite(typeis(t, "*types.ArrayType"), cast(t, "*types.ArrayType").ElemType, cast(t, "*types.StructType").Fields[i])
+//@ rec spec aggok(t types.Type, idx []uint64) bool reads {elems(uint64), types.ArrayType.ElemType, types.StructType.Fields, elems(types.Type)} = len(idx) == 0 || ((typeis(t, "*types.ArrayType") || (typeis(t, "*types.StructType") && idx[0] < len(cast(t, "*types.StructType").Fields))) && aggok(astep(t, idx[0]), idx[1:len(idx)]))
+//@ rec spec aggty(t types.Type, idx []uint64) types.Type reads {elems(uint64), types.ArrayType.ElemType, types.StructType.Fields, elems(types.Type)} = ite(len(idx) == 0, t, aggty(astep(t, idx[0]), idx[1:len(idx)]))
+//@ func aggregateElemType
+//@   props C06
+//@   requires aggok(t, indices)
+//@   assigns nothing
+//@   ensures result == aggty(t, indices)
+//@ func (*InstExtractValue).Type
+//@   props C06 C14
+//@   requires inst != nil && inst.X != nil && aggok(vtype(inst.X), inst.Indices)
+//@   requires inst.Typ == nil || inst.Typ == aggty(vtype(inst.X), inst.Indices)
+//@   assigns caches
+//@   ensures result == aggty(vtype(inst.X), inst.Indices) && inst.Typ == result
+
+//@ # ---------------------------------------------------------------- identifiers (C08 C13 C14) ---
+//@ # Field-level contracts of the identifier methods; together with the static obligation ident-impls
+//@ # (every namedVar gets them by promotion from an identifier embedded by value) they justify the
+//@ # interface contracts over nvid/nvun above.
+//@ func (LocalIdent).ID
+//@   props C08 C13 C14
+//@   assigns nothing
+//@   ensures result == i.LocalID
+//@ func (*LocalIdent).SetID
+//@   props C08 C13 C14
+//@   requires i != nil
+//@   assigns i.LocalID
+//@   ensures i.LocalID == id
+//@ func (LocalIdent).IsUnnamed
+//@   props C08 C13 C14
+//@   assigns nothing
+//@   ensures result == (len(i.LocalName) == 0)
+//@ func (GlobalIdent).ID
+//@   props C08 C13 C14
+//@   assigns nothing
+//@   ensures result == i.GlobalID
+//@ func (*GlobalIdent).SetID
+//@   props C08 C13 C14
+//@   requires i != nil
+//@   assigns i.GlobalID
+//@   ensures i.GlobalID == id
+//@ func (GlobalIdent).IsUnnamed
+//@   props C08 C13 C14
+//@   assigns nothing
+//@   ensures result == (len(i.GlobalName) == 0)
+
+//@ # ---------------------------------------------------------------- C07 (instruction side) ---
+//@ # gepInstType classifies the operands and applies gep.ResultType; its result obeys LLVM's rule stated
+//@ # over the operands themselves (gepPre/gepPost, specs/llvm_gep.spec).
+//@ func gepInstType
+//@   props C07
+//@   requires gepPre(elemType, src, indices)
+//@   assigns caches
+//@   ensures gepPost(result, elemType, src, indices, old(gwalkV(elemType, indices, len(indices))))
+//@   loop 0: invariant 0 <= range_i && range_i <= len(indices) && len(idxs) == range_i && (cap(idxs) == 0 || fresh(idxs)) && gpaired(idxs, indices)
+//@   loop 0: invariant forall(k, 0, range_i, idxs[k].HasVal == gvHas(indices[k]) && idxs[k].Val == gvVal(indices[k]) && idxs[k].VectorLen == gvLen(indices[k]) && idxs[k].Scalable == gvSc(indices[k]))
+//@ func (*InstGetElementPtr).Type
+//@   props C06 C07 C14
+//@   requires inst != nil && inst.Src != nil && gepPre(inst.ElemType, vtype(inst.Src), inst.Indices)
+//@   requires inst.Typ == nil || gepPost(inst.Typ, inst.ElemType, vtype(inst.Src), inst.Indices, gwalkV(inst.ElemType, inst.Indices, len(inst.Indices)))
+//@   assigns caches
+//@   ensures gepPost(result, inst.ElemType, vtype(inst.Src), inst.Indices, old(gwalkV(inst.ElemType, inst.Indices, len(inst.Indices)))) && inst.Typ == result
+//@ func NewGetElementPtr
+//@   props C03 C07
+//@   requires src != nil && gepPre(elemType, vtype(src), indices)
+//@   assigns caches
+//@   ensures result != nil && fresh(result) && result.ElemType == elemType && result.Src == src && len(result.Indices) == len(indices) && forall(k, 0, len(indices), result.Indices[k] == indices[k])
+//@   ensures gepPost(result.Typ, elemType, vtype(src), indices, old(gwalkV(elemType, indices, len(indices))))
+
+//@ # ---------------------------------------------------------------- C15 (successors) ---
+//@ # Succs() lists the branch targets of the terminator, each target field once, in declaration order.
+//@ # The cached list, when present, must list the same targets (object invariant, stated as a
+//@ # precondition: it is what a slot write through Operands() breaks - the recorded known finding).
+//@ macro blk(v value.Value) *Block = cast(v, "*Block")
+//@ func (*TermRet).Succs
+//@   props C15 C14
+//@   assigns nothing
+//@   ensures len(result) == 0
+//@ func (*TermUnreachable).Succs
+//@   props C15 C14
+//@   assigns nothing
+//@   ensures len(result) == 0
+//@ func (*TermResume).Succs
+//@   props C15 C14
+//@   assigns nothing
+//@   ensures len(result) == 0
+//@ func (*TermBr).Succs
+//@   props C15 C14
+//@   requires term != nil && typeis(term.Target, "*Block")
+//@   requires term.Successors == nil || (len(term.Successors) == 1 && term.Successors[0] == blk(term.Target))
+//@   assigns caches
+//@   ensures len(result) == 1 && result[0] == blk(term.Target)
+//@ func (*TermCatchRet).Succs
+//@   props C15 C14
+//@   requires term != nil && typeis(term.Target, "*Block")
+//@   requires term.Successors == nil || (len(term.Successors) == 1 && term.Successors[0] == blk(term.Target))
+//@   assigns caches
+//@   ensures len(result) == 1 && result[0] == blk(term.Target)
+//@ func (*TermCondBr).Succs
+//@   props C15 C14
+//@   requires term != nil && typeis(term.TargetTrue, "*Block") && typeis(term.TargetFalse, "*Block")
+//@   requires term.Successors == nil || (len(term.Successors) == 2 && term.Successors[0] == blk(term.TargetTrue) && term.Successors[1] == blk(term.TargetFalse))
+//@   assigns caches
+//@   ensures len(result) == 2 && result[0] == blk(term.TargetTrue) && result[1] == blk(term.TargetFalse)
+//@ func (*TermInvoke).Succs
+//@   props C15 C14
+//@   requires term != nil && typeis(term.NormalRetTarget, "*Block") && typeis(term.ExceptionRetTarget, "*Block")
+//@   requires term.Successors == nil || (len(term.Successors) == 2 && term.Successors[0] == blk(term.NormalRetTarget) && term.Successors[1] == blk(term.ExceptionRetTarget))
+//@   assigns caches
+//@   ensures len(result) == 2 && result[0] == blk(term.NormalRetTarget) && result[1] == blk(term.ExceptionRetTarget)
+//@ func (*TermCleanupRet).Succs
+//@   props C15 C14
+//@   requires term != nil
+//@   requires term.Successors == nil || (typeis(term.UnwindTarget, "*Block") && len(term.Successors) == 1 && term.Successors[0] == blk(term.UnwindTarget)) || (!typeis(term.UnwindTarget, "*Block") && len(term.Successors) == 0)
+//@   assigns caches
+//@   ensures typeis(term.UnwindTarget, "*Block") ==> len(result) == 1 && result[0] == blk(term.UnwindTarget)
+//@   ensures !typeis(term.UnwindTarget, "*Block") ==> len(result) == 0
+//@ func (*TermSwitch).Succs
+//@   props C15 C14
+//@   requires term != nil && typeis(term.TargetDefault, "*Block") && forall(k, 0, len(term.Cases), term.Cases[k] != nil && typeis(term.Cases[k].Target, "*Block"))
+//@   requires term.Successors == nil || (len(term.Successors) == 1 + len(term.Cases) && term.Successors[0] == blk(term.TargetDefault) && forall(k, 0, len(term.Cases), term.Successors[1 + k] == blk(term.Cases[k].Target)))
+//@   assigns caches
+//@   ensures len(result) == 1 + len(term.Cases) && result[0] == blk(term.TargetDefault) && forall(k, 0, len(term.Cases), result[1 + k] == blk(term.Cases[k].Target))
+//@   loop 0: invariant 0 <= range_i && range_i <= len(term.Cases) && len(succs) == 1 + range_i && fresh(succs) && succs[0] == blk(term.TargetDefault) && forall(k, 0, range_i, succs[1 + k] == blk(term.Cases[k].Target))
+//@ func (*TermIndirectBr).Succs
+//@   props C15 C14
+//@   requires term != nil && forall(k, 0, len(term.ValidTargets), typeis(term.ValidTargets[k], "*Block"))
+//@   requires term.Successors == nil || (len(term.Successors) == len(term.ValidTargets) && forall(k, 0, len(term.ValidTargets), term.Successors[k] == blk(term.ValidTargets[k])))
+//@   assigns caches
+//@   ensures len(result) == len(term.ValidTargets) && forall(k, 0, len(term.ValidTargets), result[k] == blk(term.ValidTargets[k]))
+//@   loop 0: invariant 0 <= range_i && range_i <= len(term.ValidTargets) && len(term.Successors) == range_i && forall(k, 0, range_i, term.Successors[k] == blk(term.ValidTargets[k]))
+//@ func (*TermCallBr).Succs
+//@   props C15 C14
+//@   requires term != nil && typeis(term.NormalRetTarget, "*Block") && forall(k, 0, len(term.OtherRetTargets), typeis(term.OtherRetTargets[k], "*Block"))
+//@   requires term.Successors == nil || (len(term.Successors) == 1 + len(term.OtherRetTargets) && term.Successors[0] == blk(term.NormalRetTarget) && forall(k, 0, len(term.OtherRetTargets), term.Successors[1 + k] == blk(term.OtherRetTargets[k])))
+//@   assigns caches
+//@   ensures len(result) == 1 + len(term.OtherRetTargets) && result[0] == blk(term.NormalRetTarget) && forall(k, 0, len(term.OtherRetTargets), result[1 + k] == blk(term.OtherRetTargets[k]))
+//@   loop 0: invariant 0 <= range_i && range_i <= len(term.OtherRetTargets) && len(term.Successors) == 1 + range_i && term.Successors[0] == blk(term.NormalRetTarget) && forall(k, 0, range_i, term.Successors[1 + k] == blk(term.OtherRetTargets[k]))
+//@ func (*TermCatchSwitch).Succs
+//@   props C15 C14
+//@   requires term != nil && forall(k, 0, len(term.Handlers), typeis(term.Handlers[k], "*Block"))
+//@   requires term.Successors == nil || (len(term.Successors) == len(term.Handlers) + ite(typeis(term.DefaultUnwindTarget, "*Block"), 1, 0) && forall(k, 0, len(term.Handlers), term.Successors[k] == blk(term.Handlers[k])) && (typeis(term.DefaultUnwindTarget, "*Block") ==> term.Successors[len(term.Handlers)] == blk(term.DefaultUnwindTarget)))
+//@   assigns caches
+//@   ensures len(result) == len(term.Handlers) + ite(typeis(term.DefaultUnwindTarget, "*Block"), 1, 0) && forall(k, 0, len(term.Handlers), result[k] == blk(term.Handlers[k]))
+//@   ensures typeis(term.DefaultUnwindTarget, "*Block") ==> result[len(term.Handlers)] == blk(term.DefaultUnwindTarget)
+//@   loop 0: invariant 0 <= range_i && range_i <= len(term.Handlers) && len(term.Successors) == range_i && forall(k, 0, range_i, term.Successors[k] == blk(term.Handlers[k]))
+
+//@ # ---------------------------------------------------------------- C03 (remaining constructors) ---
+//@ # The constructors the generator does not cover (multi-statement bodies): operands recorded exactly,
+//@ # never rejected when LLVM's operand rule holds.
+//@ func NewExtractValue
+//@   props C03
+//@   requires x != nil && aggok(vtype(x), indices)
+//@   assigns caches
+//@   ensures result != nil && fresh(result) && result.X == x && len(result.Indices) == len(indices) && forall(k, 0, len(indices), result.Indices[k] == indices[k])
+//@   ensures result.Typ == old(aggty(vtype(x), indices))
+//@ # insertvalue: the inserted element has the type found at the index path
+//@ func NewInsertValue
+//@   props C03
+//@   requires x != nil && elem != nil && aggok(vtype(x), indices) && aggty(vtype(x), indices) != nil && teq(aggty(vtype(x), indices), vtype(elem))
+//@   assigns caches
+//@   ensures result != nil && fresh(result) && result.X == x && result.Elem == elem && len(result.Indices) == len(indices) && forall(k, 0, len(indices), result.Indices[k] == indices[k])
+//@   ensures result.Typ == vtype(x)
+//@ func NewIndirectBr
+//@   props C03
+//@   assigns nothing
+//@   ensures result != nil && fresh(result) && result.Addr == addr && len(result.ValidTargets) == len(validTargets) && forall(k, 0, len(validTargets), result.ValidTargets[k] == boxed(validTargets[k]))
+//@   loop 0: invariant 0 <= range_i && range_i <= len(validTargets) && len(targets) == range_i && (cap(targets) == 0 || fresh(targets)) && forall(k, 0, range_i, targets[k] == boxed(validTargets[k]))
+//@ func NewCallBr
+//@   props C03
+//@   requires callee != nil && isFuncPtr(vtype(callee))
+//@   assigns caches
+//@   ensures result != nil && fresh(result) && result.Callee == callee && result.NormalRetTarget == boxed(normalRetTarget) && len(result.Args) == len(args) && forall(k, 0, len(args), result.Args[k] == args[k])
+//@   ensures len(result.OtherRetTargets) == len(otherRetTargets) && forall(k, 0, len(otherRetTargets), result.OtherRetTargets[k] == boxed(otherRetTargets[k]))
+//@   ensures result.Typ == calleeRet(vtype(callee))
+//@   loop 0: invariant 0 <= range_i && range_i <= len(otherRetTargets) && len(otherRets) == range_i && (cap(otherRets) == 0 || fresh(otherRets)) && forall(k, 0, range_i, otherRets[k] == boxed(otherRetTargets[k]))
+//@ func NewCatchSwitch
+//@   props C03
+//@   assigns nothing
+//@   ensures result != nil && fresh(result) && result.ParentPad == parentPad && len(result.Handlers) == len(handlers) && forall(k, 0, len(handlers), result.Handlers[k] == boxed(handlers[k]))
+//@   ensures (defaultUnwindTarget == nil ==> result.DefaultUnwindTarget == nil) && (defaultUnwindTarget != nil ==> result.DefaultUnwindTarget == boxed(defaultUnwindTarget))
+//@   loop 0: invariant 0 <= range_i && range_i <= len(handlers) && len(hs) == range_i && (cap(hs) == 0 || fresh(hs)) && forall(k, 0, range_i, hs[k] == boxed(handlers[k]))
+//@ func NewCleanupRet
+//@   props C03
+//@   assigns nothing
+//@   ensures result != nil && fresh(result) && result.CleanupPad == boxed(cleanupPad)
+//@   ensures (unwindTarget == nil ==> result.UnwindTarget == nil) && (unwindTarget != nil ==> result.UnwindTarget == boxed(unwindTarget))
+//@ func NewCase
+//@   props C03
+//@   assigns nothing
+//@   ensures result != nil && fresh(result) && result.X == x && result.Target == boxed(target)
+//@ func NewClause
+//@   props C03
+//@   assigns nothing
+//@   ensures result != nil && fresh(result) && result.Type == clauseType && result.X == x
+//@ func NewIncoming
+//@   props C03
+//@   assigns nothing
+//@   ensures result != nil && fresh(result) && result.X == x && result.Pred == boxed(pred)
+//@ func NewParam
+//@   props C03
+//@   assigns nothing
+//@   ensures result != nil && fresh(result) && result.LocalName == name && result.LocalID == 0 && result.Typ == typ
+//@ func NewBlock
+//@   props C03
+//@   assigns nothing
+//@   ensures result != nil && fresh(result) && result.LocalName == name && result.LocalID == 0 && len(result.Insts) == 0 && result.Term == nil
+//@ func NewGlobal
+//@   props C03
+//@   assigns nothing
+//@   ensures result != nil && fresh(result) && result.GlobalName == name && result.GlobalID == 0 && result.ContentType == contentType && result.Init == nil
+//@   ensures result.Typ != nil && fresh(result.Typ) && result.Typ.ElemType == contentType && result.Typ.AddrSpace == 0
+//@ func NewGlobalDef
+//@   props C03
+//@   requires init != nil
+//@   assigns caches
+//@   ensures result != nil && fresh(result) && result.GlobalName == name && result.GlobalID == 0 && result.ContentType == vtype(init) && result.Init == init
+//@   ensures result.Typ != nil && fresh(result.Typ) && result.Typ.ElemType == vtype(init) && result.Typ.AddrSpace == 0
+//@ # an alias has the (pointer) type of its aliasee
+//@ func NewAlias
+//@   props C03
+//@   requires aliasee != nil && typeis(vtype(aliasee), "*types.PointerType")
+//@   assigns caches
+//@   ensures result != nil && fresh(result) && result.GlobalName == name && result.GlobalID == 0 && result.Aliasee == aliasee && boxed(result.Typ) == vtype(aliasee)
+//@ # a function's signature lists the parameter types in order; its type is a pointer to the signature
+//@ func NewFunc
+//@   props C03
+//@   requires forall(k, 0, len(params), params[k] != nil)
+//@   assigns nothing
+//@   ensures result != nil && fresh(result) && result.GlobalName == name && result.GlobalID == 0 && len(result.Params) == len(params) && forall(k, 0, len(params), result.Params[k] == params[k])
+//@   ensures result.Sig != nil && fresh(result.Sig) && result.Sig.RetType == retType && !result.Sig.Variadic && len(result.Sig.Params) == len(params) && forall(k, 0, len(params), result.Sig.Params[k] == params[k].Typ)
+//@   ensures result.Typ != nil && fresh(result.Typ) && result.Typ.ElemType == boxed(result.Sig) && result.Typ.AddrSpace == 0
+//@   loop 0: invariant 0 <= range_i && range_i <= len(params) && len(paramTypes) == len(params) && fresh(paramTypes) && forall(k, 0, range_i, paramTypes[k] == params[k].Typ)
+//@ func NewArg
+//@   props C03
+//@   assigns nothing
+//@   ensures result != nil && fresh(result) && result.Value == x && len(result.Attrs) == len(attrs) && forall(k, 0, len(attrs), result.Attrs[k] == attrs[k])
+//@ func NewOperandBundle
+//@   props C03
+//@   assigns nothing
+//@   ensures result != nil && fresh(result) && result.Tag == tag && len(result.Inputs) == len(inputs) && forall(k, 0, len(inputs), result.Inputs[k] == inputs[k])
+//@ func NewInlineAsm
+//@   props C03
+//@   assigns nothing
+//@   ensures result != nil && fresh(result) && result.Typ == typ && result.Asm == asm && result.Constraint == constraint
+
+//@ # ---------------------------------------------------------------- C03 (module and function builders) ---
+//@ # A builder appends exactly the entity the plain constructor builds; earlier entries are untouched.
+//@ func (*Func).NewBlock
+//@   props C03
+//@   requires f != nil
+//@   assigns f.Blocks
+//@   ensures result != nil && fresh(result) && result.LocalName == name && result.LocalID == 0 && result.Parent == f && len(result.Insts) == 0 && result.Term == nil
+//@   ensures len(f.Blocks) == old(len(f.Blocks)) + 1 && f.Blocks[old(len(f.Blocks))] == result && forall(k, 0, old(len(f.Blocks)), f.Blocks[k] == old(f.Blocks[k]))
+//@ func (*Module).NewGlobal
+//@   props C03
+//@   requires m != nil
+//@   assigns m.Globals
+//@   ensures result != nil && fresh(result) && result.GlobalName == name && result.ContentType == contentType && result.Init == nil
+//@   ensures len(m.Globals) == old(len(m.Globals)) + 1 && m.Globals[old(len(m.Globals))] == result && forall(k, 0, old(len(m.Globals)), m.Globals[k] == old(m.Globals[k]))
+//@ func (*Module).NewGlobalDef
+//@   props C03
+//@   requires m != nil && init != nil
+//@   assigns m.Globals, caches
+//@   ensures result != nil && fresh(result) && result.GlobalName == name && result.ContentType == vtype(init) && result.Init == init
+//@   ensures len(m.Globals) == old(len(m.Globals)) + 1 && m.Globals[old(len(m.Globals))] == result && forall(k, 0, old(len(m.Globals)), m.Globals[k] == old(m.Globals[k]))
+//@ func (*Module).NewAlias
+//@   props C03
+//@   requires m != nil && aliasee != nil && typeis(vtype(aliasee), "*types.PointerType")
+//@   assigns m.Aliases, caches
+//@   ensures result != nil && fresh(result) && result.GlobalName == name && result.Aliasee == aliasee
+//@   ensures len(m.Aliases) == old(len(m.Aliases)) + 1 && m.Aliases[old(len(m.Aliases))] == result && forall(k, 0, old(len(m.Aliases)), m.Aliases[k] == old(m.Aliases[k]))
+//@ func (*Module).NewFunc
+//@   props C03
+//@   requires m != nil && forall(k, 0, len(params), params[k] != nil)
+//@   assigns m.Funcs
+//@   ensures result != nil && fresh(result) && result.GlobalName == name && result.Parent == m && len(result.Params) == len(params) && forall(k, 0, len(params), result.Params[k] == params[k])
+//@   ensures result.Sig != nil && result.Sig.RetType == retType && len(result.Sig.Params) == len(params)
+//@   ensures len(m.Funcs) == old(len(m.Funcs)) + 1 && m.Funcs[old(len(m.Funcs))] == result && forall(k, 0, old(len(m.Funcs)), m.Funcs[k] == old(m.Funcs[k]))
+
 //@ # ==== generated by /verif/tools/gen_ir_contracts.py: begin ====
 //@ # ---------------------------------------------------------------- C06 / C14 ---
 //@ # Result types against LLVM's typing rules (macros in specs/llvm_types.spec). The cached type,
@@ -879,6 +1161,20 @@ package ir
 //@ func NewZExt
 //@   props C03
 //@   ensures result != nil && fresh(result) && result.From == from && result.To == to
+//@ func (*Block).NewExtractValue
+//@   props C03
+//@   requires block != nil && x != nil && aggok(vtype(x), indices)
+//@   assigns block.Insts, caches
+//@   ensures result != nil && fresh(result) && result.X == x
+//@   ensures len(block.Insts) == old(len(block.Insts)) + 1 && block.Insts[old(len(block.Insts))] == boxed(result)
+//@   ensures forall(k, 0, old(len(block.Insts)), block.Insts[k] == old(block.Insts[k]))
+//@ func (*Block).NewInsertValue
+//@   props C03
+//@   requires block != nil && x != nil && elem != nil && aggok(vtype(x), indices) && aggty(vtype(x), indices) != nil && teq(aggty(vtype(x), indices), vtype(elem))
+//@   assigns block.Insts, caches
+//@   ensures result != nil && fresh(result) && result.X == x && result.Elem == elem
+//@   ensures len(block.Insts) == old(len(block.Insts)) + 1 && block.Insts[old(len(block.Insts))] == boxed(result)
+//@   ensures forall(k, 0, old(len(block.Insts)), block.Insts[k] == old(block.Insts[k]))
 //@ func (*Block).NewAdd
 //@   props C03
 //@   requires block != nil && x != nil
@@ -1005,6 +1301,13 @@ package ir
 //@   ensures result != nil && fresh(result) && result.X == x && result.Y == y
 //@   ensures len(block.Insts) == old(len(block.Insts)) + 1 && block.Insts[old(len(block.Insts))] == boxed(result)
 //@   ensures forall(k, 0, old(len(block.Insts)), block.Insts[k] == old(block.Insts[k]))
+//@ func (*Block).NewTrunc
+//@   props C03
+//@   requires block != nil && from != nil && to != nil && truncOK(vtype(from), to)
+//@   assigns block.Insts, caches
+//@   ensures result != nil && fresh(result) && result.From == from && result.To == to
+//@   ensures len(block.Insts) == old(len(block.Insts)) + 1 && block.Insts[old(len(block.Insts))] == boxed(result)
+//@   ensures forall(k, 0, old(len(block.Insts)), block.Insts[k] == old(block.Insts[k]))
 //@ func (*Block).NewZExt
 //@   props C03
 //@   requires block != nil
@@ -1103,6 +1406,13 @@ package ir
 //@   ensures result != nil && fresh(result) && result.ElemType == elemType && result.Src == src
 //@   ensures len(block.Insts) == old(len(block.Insts)) + 1 && block.Insts[old(len(block.Insts))] == boxed(result)
 //@   ensures forall(k, 0, old(len(block.Insts)), block.Insts[k] == old(block.Insts[k]))
+//@ func (*Block).NewStore
+//@   props C03
+//@   requires block != nil && src != nil && dst != nil && storeOK(vtype(src), vtype(dst))
+//@   assigns block.Insts, caches
+//@   ensures result != nil && fresh(result) && result.Src == src && result.Dst == dst
+//@   ensures len(block.Insts) == old(len(block.Insts)) + 1 && block.Insts[old(len(block.Insts))] == boxed(result)
+//@   ensures forall(k, 0, old(len(block.Insts)), block.Insts[k] == old(block.Insts[k]))
 //@ func (*Block).NewFence
 //@   props C03
 //@   requires block != nil
@@ -1122,6 +1432,13 @@ package ir
 //@   requires block != nil && dst != nil && typeis(vtype(dst), "*types.PointerType")
 //@   assigns block.Insts, caches
 //@   ensures result != nil && fresh(result) && result.Op == op && result.Dst == dst && result.X == x && result.Ordering == ordering
+//@   ensures len(block.Insts) == old(len(block.Insts)) + 1 && block.Insts[old(len(block.Insts))] == boxed(result)
+//@   ensures forall(k, 0, old(len(block.Insts)), block.Insts[k] == old(block.Insts[k]))
+//@ func (*Block).NewGetElementPtr
+//@   props C03
+//@   requires block != nil && src != nil && gepPre(elemType, vtype(src), indices)
+//@   assigns block.Insts, caches
+//@   ensures result != nil && fresh(result) && result.ElemType == elemType && result.Src == src
 //@   ensures len(block.Insts) == old(len(block.Insts)) + 1 && block.Insts[old(len(block.Insts))] == boxed(result)
 //@   ensures forall(k, 0, old(len(block.Insts)), block.Insts[k] == old(block.Insts[k]))
 //@ func (*Block).NewICmp
@@ -1211,11 +1528,23 @@ package ir
 //@   assigns block.Term
 //@   ensures result != nil && fresh(result) && result.X == x && result.TargetDefault == targetDefault && result.Cases == cases
 //@   ensures block.Term == boxed(result)
+//@ func (*Block).NewIndirectBr
+//@   props C03
+//@   requires block != nil
+//@   assigns block.Term
+//@   ensures result != nil && fresh(result) && result.Addr == addr
+//@   ensures block.Term == boxed(result)
 //@ func (*Block).NewInvoke
 //@   props C03
 //@   requires block != nil && invokee != nil && isFuncPtr(vtype(invokee))
 //@   assigns block.Term, caches
 //@   ensures result != nil && fresh(result) && result.Invokee == invokee && result.Args == args && result.NormalRetTarget == normalRetTarget && result.ExceptionRetTarget == exceptionRetTarget
+//@   ensures block.Term == boxed(result)
+//@ func (*Block).NewCallBr
+//@   props C03
+//@   requires block != nil && callee != nil && isFuncPtr(vtype(callee))
+//@   assigns block.Term, caches
+//@   ensures result != nil && fresh(result) && result.Callee == callee
 //@   ensures block.Term == boxed(result)
 //@ func (*Block).NewResume
 //@   props C03
@@ -1223,11 +1552,23 @@ package ir
 //@   assigns block.Term
 //@   ensures result != nil && fresh(result) && result.X == x
 //@   ensures block.Term == boxed(result)
+//@ func (*Block).NewCatchSwitch
+//@   props C03
+//@   requires block != nil
+//@   assigns block.Term
+//@   ensures result != nil && fresh(result) && result.ParentPad == parentPad
+//@   ensures block.Term == boxed(result)
 //@ func (*Block).NewCatchRet
 //@   props C03
 //@   requires block != nil
 //@   assigns block.Term
 //@   ensures result != nil && fresh(result) && result.CatchPad == catchPad && result.Target == target
+//@   ensures block.Term == boxed(result)
+//@ func (*Block).NewCleanupRet
+//@   props C03
+//@   requires block != nil
+//@   assigns block.Term
+//@   ensures result != nil && fresh(result)
 //@   ensures block.Term == boxed(result)
 //@ func (*Block).NewUnreachable
 //@   props C03
@@ -1667,251 +2008,3 @@ package ir
 //@   assigns nothing
 //@   ensures len(result) == 0
 //@ # ==== generated: end ====
-
-//@ # ---------------------------------------------------------------- C06 (extractvalue) ---
-//@ # LLVM's rule: extractvalue steps through struct fields and array elements, one index per level.
-//@ macro astep(t types.Type, i uint64) types.Type = ite(typeis(t, "*types.ArrayType"), cast(t, "*types.ArrayType").ElemType, cast(t, "*types.StructType").Fields[i])
-//@ rec spec aggok(t types.Type, idx []uint64) bool reads {elems(uint64), types.ArrayType.ElemType, types.StructType.Fields, elems(types.Type)} = len(idx) == 0 || ((typeis(t, "*types.ArrayType") || (typeis(t, "*types.StructType") && idx[0] < len(cast(t, "*types.StructType").Fields))) && aggok(astep(t, idx[0]), idx[1:len(idx)]))
-//@ rec spec aggty(t types.Type, idx []uint64) types.Type reads {elems(uint64), types.ArrayType.ElemType, types.StructType.Fields, elems(types.Type)} = ite(len(idx) == 0, t, aggty(astep(t, idx[0]), idx[1:len(idx)]))
-//@ func aggregateElemType
-//@   props C06
-//@   requires aggok(t, indices)
-//@   assigns nothing
-//@   ensures result == aggty(t, indices)
-//@ func (*InstExtractValue).Type
-//@   props C06 C14
-//@   requires inst != nil && inst.X != nil && aggok(vtype(inst.X), inst.Indices)
-//@   requires inst.Typ == nil || inst.Typ == aggty(vtype(inst.X), inst.Indices)
-//@   assigns caches
-//@   ensures result == aggty(vtype(inst.X), inst.Indices) && inst.Typ == result
-
-//@ # ---------------------------------------------------------------- identifiers (C08 C13 C14) ---
-//@ # Field-level contracts of the identifier methods; together with the static obligation ident-impls
-//@ # (every namedVar gets them by promotion from an identifier embedded by value) they justify the
-//@ # interface contracts over nvid/nvun above.
-//@ func (LocalIdent).ID
-//@   props C08 C13 C14
-//@   assigns nothing
-//@   ensures result == i.LocalID
-//@ func (*LocalIdent).SetID
-//@   props C08 C13 C14
-//@   requires i != nil
-//@   assigns i.LocalID
-//@   ensures i.LocalID == id
-//@ func (LocalIdent).IsUnnamed
-//@   props C08 C13 C14
-//@   assigns nothing
-//@   ensures result == (len(i.LocalName) == 0)
-//@ func (GlobalIdent).ID
-//@   props C08 C13 C14
-//@   assigns nothing
-//@   ensures result == i.GlobalID
-//@ func (*GlobalIdent).SetID
-//@   props C08 C13 C14
-//@   requires i != nil
-//@   assigns i.GlobalID
-//@   ensures i.GlobalID == id
-//@ func (GlobalIdent).IsUnnamed
-//@   props C08 C13 C14
-//@   assigns nothing
-//@   ensures result == (len(i.GlobalName) == 0)
-
-//@ # ---------------------------------------------------------------- C07 (instruction side) ---
-//@ # gepInstType classifies the operands and applies gep.ResultType; its result obeys LLVM's rule stated
-//@ # over the operands themselves (gepPre/gepPost, specs/llvm_gep.spec).
-//@ func gepInstType
-//@   props C07
-//@   requires gepPre(elemType, src, indices)
-//@   assigns caches
-//@   ensures gepPost(result, elemType, src, indices, old(gwalkV(elemType, indices, len(indices))))
-//@   loop 0: invariant 0 <= range_i && range_i <= len(indices) && len(idxs) == range_i && (cap(idxs) == 0 || fresh(idxs)) && gpaired(idxs, indices)
-//@   loop 0: invariant forall(k, 0, range_i, idxs[k].HasVal == gvHas(indices[k]) && idxs[k].Val == gvVal(indices[k]) && idxs[k].VectorLen == gvLen(indices[k]) && idxs[k].Scalable == gvSc(indices[k]))
-//@ func (*InstGetElementPtr).Type
-//@   props C06 C07 C14
-//@   requires inst != nil && inst.Src != nil && gepPre(inst.ElemType, vtype(inst.Src), inst.Indices)
-//@   requires inst.Typ == nil || gepPost(inst.Typ, inst.ElemType, vtype(inst.Src), inst.Indices, gwalkV(inst.ElemType, inst.Indices, len(inst.Indices)))
-//@   assigns caches
-//@   ensures gepPost(result, inst.ElemType, vtype(inst.Src), inst.Indices, old(gwalkV(inst.ElemType, inst.Indices, len(inst.Indices)))) && inst.Typ == result
-//@ func NewGetElementPtr
-//@   props C03 C07
-//@   requires src != nil && gepPre(elemType, vtype(src), indices)
-//@   assigns caches
-//@   ensures result != nil && fresh(result) && result.ElemType == elemType && result.Src == src && len(result.Indices) == len(indices) && forall(k, 0, len(indices), result.Indices[k] == indices[k])
-//@   ensures gepPost(result.Typ, elemType, vtype(src), indices, old(gwalkV(elemType, indices, len(indices))))
-
-//@ # ---------------------------------------------------------------- C15 (successors) ---
-//@ # Succs() lists the branch targets of the terminator, each target field once, in declaration order.
-//@ # The cached list, when present, must list the same targets (object invariant, stated as a
-//@ # precondition: it is what a slot write through Operands() breaks - the recorded known finding).
-//@ macro blk(v value.Value) *Block = cast(v, "*Block")
-//@ func (*TermRet).Succs
-//@   props C15 C14
-//@   assigns nothing
-//@   ensures len(result) == 0
-//@ func (*TermUnreachable).Succs
-//@   props C15 C14
-//@   assigns nothing
-//@   ensures len(result) == 0
-//@ func (*TermResume).Succs
-//@   props C15 C14
-//@   assigns nothing
-//@   ensures len(result) == 0
-//@ func (*TermBr).Succs
-//@   props C15 C14
-//@   requires term != nil && typeis(term.Target, "*Block")
-//@   requires term.Successors == nil || (len(term.Successors) == 1 && term.Successors[0] == blk(term.Target))
-//@   assigns caches
-//@   ensures len(result) == 1 && result[0] == blk(term.Target)
-//@ func (*TermCatchRet).Succs
-//@   props C15 C14
-//@   requires term != nil && typeis(term.Target, "*Block")
-//@   requires term.Successors == nil || (len(term.Successors) == 1 && term.Successors[0] == blk(term.Target))
-//@   assigns caches
-//@   ensures len(result) == 1 && result[0] == blk(term.Target)
-//@ func (*TermCondBr).Succs
-//@   props C15 C14
-//@   requires term != nil && typeis(term.TargetTrue, "*Block") && typeis(term.TargetFalse, "*Block")
-//@   requires term.Successors == nil || (len(term.Successors) == 2 && term.Successors[0] == blk(term.TargetTrue) && term.Successors[1] == blk(term.TargetFalse))
-//@   assigns caches
-//@   ensures len(result) == 2 && result[0] == blk(term.TargetTrue) && result[1] == blk(term.TargetFalse)
-//@ func (*TermInvoke).Succs
-//@   props C15 C14
-//@   requires term != nil && typeis(term.NormalRetTarget, "*Block") && typeis(term.ExceptionRetTarget, "*Block")
-//@   requires term.Successors == nil || (len(term.Successors) == 2 && term.Successors[0] == blk(term.NormalRetTarget) && term.Successors[1] == blk(term.ExceptionRetTarget))
-//@   assigns caches
-//@   ensures len(result) == 2 && result[0] == blk(term.NormalRetTarget) && result[1] == blk(term.ExceptionRetTarget)
-//@ func (*TermCleanupRet).Succs
-//@   props C15 C14
-//@   requires term != nil
-//@   requires term.Successors == nil || (typeis(term.UnwindTarget, "*Block") && len(term.Successors) == 1 && term.Successors[0] == blk(term.UnwindTarget)) || (!typeis(term.UnwindTarget, "*Block") && len(term.Successors) == 0)
-//@   assigns caches
-//@   ensures typeis(term.UnwindTarget, "*Block") ==> len(result) == 1 && result[0] == blk(term.UnwindTarget)
-//@   ensures !typeis(term.UnwindTarget, "*Block") ==> len(result) == 0
-//@ func (*TermSwitch).Succs
-//@   props C15 C14
-//@   requires term != nil && typeis(term.TargetDefault, "*Block") && forall(k, 0, len(term.Cases), term.Cases[k] != nil && typeis(term.Cases[k].Target, "*Block"))
-//@   requires term.Successors == nil || (len(term.Successors) == 1 + len(term.Cases) && term.Successors[0] == blk(term.TargetDefault) && forall(k, 0, len(term.Cases), term.Successors[1 + k] == blk(term.Cases[k].Target)))
-//@   assigns caches
-//@   ensures len(result) == 1 + len(term.Cases) && result[0] == blk(term.TargetDefault) && forall(k, 0, len(term.Cases), result[1 + k] == blk(term.Cases[k].Target))
-//@   loop 0: invariant 0 <= range_i && range_i <= len(term.Cases) && len(succs) == 1 + range_i && fresh(succs) && succs[0] == blk(term.TargetDefault) && forall(k, 0, range_i, succs[1 + k] == blk(term.Cases[k].Target))
-//@ func (*TermIndirectBr).Succs
-//@   props C15 C14
-//@   requires term != nil && forall(k, 0, len(term.ValidTargets), typeis(term.ValidTargets[k], "*Block"))
-//@   requires term.Successors == nil || (len(term.Successors) == len(term.ValidTargets) && forall(k, 0, len(term.ValidTargets), term.Successors[k] == blk(term.ValidTargets[k])))
-//@   assigns caches
-//@   ensures len(result) == len(term.ValidTargets) && forall(k, 0, len(term.ValidTargets), result[k] == blk(term.ValidTargets[k]))
-//@   loop 0: invariant 0 <= range_i && range_i <= len(term.ValidTargets) && len(term.Successors) == range_i && forall(k, 0, range_i, term.Successors[k] == blk(term.ValidTargets[k]))
-//@ func (*TermCallBr).Succs
-//@   props C15 C14
-//@   requires term != nil && typeis(term.NormalRetTarget, "*Block") && forall(k, 0, len(term.OtherRetTargets), typeis(term.OtherRetTargets[k], "*Block"))
-//@   requires term.Successors == nil || (len(term.Successors) == 1 + len(term.OtherRetTargets) && term.Successors[0] == blk(term.NormalRetTarget) && forall(k, 0, len(term.OtherRetTargets), term.Successors[1 + k] == blk(term.OtherRetTargets[k])))
-//@   assigns caches
-//@   ensures len(result) == 1 + len(term.OtherRetTargets) && result[0] == blk(term.NormalRetTarget) && forall(k, 0, len(term.OtherRetTargets), result[1 + k] == blk(term.OtherRetTargets[k]))
-//@   loop 0: invariant 0 <= range_i && range_i <= len(term.OtherRetTargets) && len(term.Successors) == 1 + range_i && term.Successors[0] == blk(term.NormalRetTarget) && forall(k, 0, range_i, term.Successors[1 + k] == blk(term.OtherRetTargets[k]))
-//@ func (*TermCatchSwitch).Succs
-//@   props C15 C14
-//@   requires term != nil && forall(k, 0, len(term.Handlers), typeis(term.Handlers[k], "*Block"))
-//@   requires term.Successors == nil || (len(term.Successors) == len(term.Handlers) + ite(typeis(term.DefaultUnwindTarget, "*Block"), 1, 0) && forall(k, 0, len(term.Handlers), term.Successors[k] == blk(term.Handlers[k])) && (typeis(term.DefaultUnwindTarget, "*Block") ==> term.Successors[len(term.Handlers)] == blk(term.DefaultUnwindTarget)))
-//@   assigns caches
-//@   ensures len(result) == len(term.Handlers) + ite(typeis(term.DefaultUnwindTarget, "*Block"), 1, 0) && forall(k, 0, len(term.Handlers), result[k] == blk(term.Handlers[k]))
-//@   ensures typeis(term.DefaultUnwindTarget, "*Block") ==> result[len(term.Handlers)] == blk(term.DefaultUnwindTarget)
-//@   loop 0: invariant 0 <= range_i && range_i <= len(term.Handlers) && len(term.Successors) == range_i && forall(k, 0, range_i, term.Successors[k] == blk(term.Handlers[k]))
-
-//@ # ---------------------------------------------------------------- C03 (remaining constructors) ---
-//@ # The constructors the generator does not cover (multi-statement bodies): operands recorded exactly,
-//@ # never rejected when LLVM's operand rule holds.
-//@ func NewExtractValue
-//@   props C03
-//@   requires x != nil && aggok(vtype(x), indices)
-//@   assigns caches
-//@   ensures result != nil && fresh(result) && result.X == x && len(result.Indices) == len(indices) && forall(k, 0, len(indices), result.Indices[k] == indices[k])
-//@   ensures result.Typ == old(aggty(vtype(x), indices))
-//@ # insertvalue: the inserted element has the type found at the index path
-//@ func NewInsertValue
-//@   props C03
-//@   requires x != nil && elem != nil && aggok(vtype(x), indices) && aggty(vtype(x), indices) != nil && teq(aggty(vtype(x), indices), vtype(elem))
-//@   assigns caches
-//@   ensures result != nil && fresh(result) && result.X == x && result.Elem == elem && len(result.Indices) == len(indices) && forall(k, 0, len(indices), result.Indices[k] == indices[k])
-//@   ensures result.Typ == vtype(x)
-//@ func NewIndirectBr
-//@   props C03
-//@   assigns nothing
-//@   ensures result != nil && fresh(result) && result.Addr == addr && len(result.ValidTargets) == len(validTargets) && forall(k, 0, len(validTargets), result.ValidTargets[k] == boxed(validTargets[k]))
-//@   loop 0: invariant 0 <= range_i && range_i <= len(validTargets) && len(targets) == range_i && (cap(targets) == 0 || fresh(targets)) && forall(k, 0, range_i, targets[k] == boxed(validTargets[k]))
-//@ func NewCallBr
-//@   props C03
-//@   requires callee != nil && isFuncPtr(vtype(callee))
-//@   assigns caches
-//@   ensures result != nil && fresh(result) && result.Callee == callee && result.NormalRetTarget == boxed(normalRetTarget) && len(result.Args) == len(args) && forall(k, 0, len(args), result.Args[k] == args[k])
-//@   ensures len(result.OtherRetTargets) == len(otherRetTargets) && forall(k, 0, len(otherRetTargets), result.OtherRetTargets[k] == boxed(otherRetTargets[k]))
-//@   ensures result.Typ == calleeRet(vtype(callee))
-//@   loop 0: invariant 0 <= range_i && range_i <= len(otherRetTargets) && len(otherRets) == range_i && (cap(otherRets) == 0 || fresh(otherRets)) && forall(k, 0, range_i, otherRets[k] == boxed(otherRetTargets[k]))
-//@ func NewCatchSwitch
-//@   props C03
-//@   assigns nothing
-//@   ensures result != nil && fresh(result) && result.ParentPad == parentPad && len(result.Handlers) == len(handlers) && forall(k, 0, len(handlers), result.Handlers[k] == boxed(handlers[k]))
-//@   ensures (defaultUnwindTarget == nil ==> result.DefaultUnwindTarget == nil) && (defaultUnwindTarget != nil ==> result.DefaultUnwindTarget == boxed(defaultUnwindTarget))
-//@   loop 0: invariant 0 <= range_i && range_i <= len(handlers) && len(hs) == range_i && (cap(hs) == 0 || fresh(hs)) && forall(k, 0, range_i, hs[k] == boxed(handlers[k]))
-//@ func NewCleanupRet
-//@   props C03
-//@   assigns nothing
-//@   ensures result != nil && fresh(result) && result.CleanupPad == boxed(cleanupPad)
-//@   ensures (unwindTarget == nil ==> result.UnwindTarget == nil) && (unwindTarget != nil ==> result.UnwindTarget == boxed(unwindTarget))
-//@ func NewCase
-//@   props C03
-//@   assigns nothing
-//@   ensures result != nil && fresh(result) && result.X == x && result.Target == boxed(target)
-//@ func NewClause
-//@   props C03
-//@   assigns nothing
-//@   ensures result != nil && fresh(result) && result.Type == clauseType && result.X == x
-//@ func NewIncoming
-//@   props C03
-//@   assigns nothing
-//@   ensures result != nil && fresh(result) && result.X == x && result.Pred == boxed(pred)
-//@ func NewParam
-//@   props C03
-//@   assigns nothing
-//@   ensures result != nil && fresh(result) && result.LocalName == name && result.LocalID == 0 && result.Typ == typ
-//@ func NewBlock
-//@   props C03
-//@   assigns nothing
-//@   ensures result != nil && fresh(result) && result.LocalName == name && result.LocalID == 0 && len(result.Insts) == 0 && result.Term == nil
-//@ func NewGlobal
-//@   props C03
-//@   assigns nothing
-//@   ensures result != nil && fresh(result) && result.GlobalName == name && result.GlobalID == 0 && result.ContentType == contentType && result.Init == nil
-//@   ensures result.Typ != nil && fresh(result.Typ) && result.Typ.ElemType == contentType && result.Typ.AddrSpace == 0
-//@ func NewGlobalDef
-//@   props C03
-//@   requires init != nil
-//@   assigns caches
-//@   ensures result != nil && fresh(result) && result.GlobalName == name && result.GlobalID == 0 && result.ContentType == vtype(init) && result.Init == init
-//@   ensures result.Typ != nil && fresh(result.Typ) && result.Typ.ElemType == vtype(init) && result.Typ.AddrSpace == 0
-//@ # an alias has the (pointer) type of its aliasee
-//@ func NewAlias
-//@   props C03
-//@   requires aliasee != nil && typeis(vtype(aliasee), "*types.PointerType")
-//@   assigns caches
-//@   ensures result != nil && fresh(result) && result.GlobalName == name && result.GlobalID == 0 && result.Aliasee == aliasee && boxed(result.Typ) == vtype(aliasee)
-//@ # a function's signature lists the parameter types in order; its type is a pointer to the signature
-//@ func NewFunc
-//@   props C03
-//@   requires forall(k, 0, len(params), params[k] != nil)
-//@   assigns nothing
-//@   ensures result != nil && fresh(result) && result.GlobalName == name && result.GlobalID == 0 && len(result.Params) == len(params) && forall(k, 0, len(params), result.Params[k] == params[k])
-//@   ensures result.Sig != nil && fresh(result.Sig) && result.Sig.RetType == retType && !result.Sig.Variadic && len(result.Sig.Params) == len(params) && forall(k, 0, len(params), result.Sig.Params[k] == params[k].Typ)
-//@   ensures result.Typ != nil && fresh(result.Typ) && result.Typ.ElemType == boxed(result.Sig) && result.Typ.AddrSpace == 0
-//@   loop 0: invariant 0 <= range_i && range_i <= len(params) && len(paramTypes) == len(params) && fresh(paramTypes) && forall(k, 0, range_i, paramTypes[k] == params[k].Typ)
-//@ func NewArg
-//@   props C03
-//@   assigns nothing
-//@   ensures result != nil && fresh(result) && result.Value == x && len(result.Attrs) == len(attrs) && forall(k, 0, len(attrs), result.Attrs[k] == attrs[k])
-//@ func NewOperandBundle
-//@   props C03
-//@   assigns nothing
-//@   ensures result != nil && fresh(result) && result.Tag == tag && len(result.Inputs) == len(inputs) && forall(k, 0, len(inputs), result.Inputs[k] == inputs[k])
-//@ func NewInlineAsm
-//@   props C03
-//@   assigns nothing
-//@   ensures result != nil && fresh(result) && result.Typ == typ && result.Asm == asm && result.Constraint == constraint
